@@ -75,6 +75,8 @@ func runC10(c *Ctx) {
 	R.Rule("close-pairing", "Unsub closes exactly the channel it splices out; UnsubAll closes all and clears; no other close", 3)
 	R.Rule("timeout-dichotomy", "OnPubTimeout is called exactly when SendTimeout returned false and the hook is set, once, with the event", 1)
 	R.Rule("send-reports", "SendTimeout (the helper every publish variant sends through) returns true exactly on the paths that performed the one send", 1)
+	R.Rule("lock-pairing", "on every path each Lock/RLock of the PubSub mutex is released by the matching Unlock/RUnlock before the function returns; nothing is released that is not held; no nested acquisition", 10)
+	R.Rule("sub-index", "subIndex scans the whole list, returns i where subs[i] == sub, and -1 after the scan", 1)
 	R.Rule("error-table", "Unsub: nil -> ErrSubscriptionNotInitalized, not found -> ErrAlreadyUnsubscribed, found -> nil; state untouched on the error rows", 1)
 	R.Rule("withonly-filter", "WithOnly's clone receives exactly the subscribers equal to the argument and the two configuration fields", 1)
 	R.Rule("sub-appends", "Sub/SubBuf append one fresh channel of the stated capacity under Lock and return that channel", 2)
@@ -1023,6 +1025,8 @@ func (x *c10) timeoutDichotomy() {
 func (x *c10) errorTable() {
 	c := x.c
 	c19Senders(c, "send-reports", true)
+	x.lockPairing()
+	x.subIndexRule()
 	fi := c.fn("error-table", "chans.(*PubSub).Unsub")
 	if fi == nil {
 		return
@@ -1111,7 +1115,12 @@ func (x *c10) withOnly() {
 				for i := p.LoopAt[it.li.Hdr]; i < len(p.Events); i++ {
 					e := &p.Events[i]
 					if e.Kind == "store" && isFieldAddr(e.Addr, x.fSubs, nil) && rootOf(e.Addr).Op == "alloc" {
-						appended = true
+						v := e.Val
+						if v.Op == "builtin" && v.Sym == "append" && len(v.Args) == 2 && isFieldLoad(v.Args[0], x.fSubs, e.Addr.Args[0]) {
+							if el, single := appendedElem(p, v.Args[0], v); single && it.isElem(el) {
+								appended = true
+							}
+						}
 					}
 				}
 				switch eq {
@@ -1226,4 +1235,143 @@ func (x *c10) subAppends() {
 		}
 		c.R.Decide(ok, "sub-appends", fi.Name, "append", c.pos(fi), "appends one fresh channel of the stated capacity under Lock and returns it", why)
 	}
+}
+
+// ---- lock-pairing ---------------------------------------------------------------------
+
+func (x *c10) lockPairing() {
+	c := x.c
+	for _, fi := range x.funcs {
+		ps := x.paths[fi]
+		ok, why := true, ""
+		nOps := 0
+		for _, p := range ps {
+			state := ""
+			atHdr := map[int]string{}
+			hdrIdx := map[int]bool{}
+			for _, at := range p.LoopAt {
+				hdrIdx[at] = true
+			}
+			for i := 0; i <= len(p.Events); i++ {
+				if hdrIdx[i] {
+					atHdr[i] = state
+				}
+				if i == len(p.Events) {
+					break
+				}
+				e := &p.Events[i]
+				if e.Kind != "call" || len(e.Args) == 0 || !isFieldAddr(e.Args[0], x.fMu, nil) {
+					continue
+				}
+				nOps++
+				bad := func(msg string) {
+					ok, why = false, fmt.Sprintf("%s on a path (%s)", msg, p.CondString())
+				}
+				switch e.Name {
+				case "sync.(*RWMutex).Lock":
+					if state != "" {
+						bad("Lock while the mutex is already held (" + state + "): self-deadlock")
+					}
+					state = "W"
+				case "sync.(*RWMutex).RLock":
+					if state != "" {
+						bad("RLock while the mutex is already held (" + state + ")")
+					}
+					state = "R"
+				case "sync.(*RWMutex).Unlock":
+					if state != "W" {
+						bad("Unlock without a matching Lock (held: '" + state + "'): fatal error at run time")
+					}
+					state = ""
+				case "sync.(*RWMutex).RUnlock":
+					if state != "R" {
+						bad("RUnlock without a matching RLock (held: '" + state + "'): fatal error at run time")
+					}
+					state = ""
+				case "sync.(*RWMutex).TryLock", "sync.(*RWMutex).TryRLock":
+					bad("Try-lock on the PubSub mutex is not modelled")
+				}
+			}
+			switch p.End {
+			case EndReturn:
+				if state != "" {
+					ok, why = false, fmt.Sprintf("returns with the mutex still held (%s) on a path (%s): every later Sub/Unsub/publish blocks forever", state, p.CondString())
+				}
+			case EndLoopBack:
+				if at, has := p.LoopAt[p.BackTo]; has && atHdr[at] != state {
+					ok, why = false, "the lock state changes across a loop iteration"
+				}
+			}
+		}
+		if nOps == 0 {
+			continue
+		}
+		o := c.R.Decide(ok, "lock-pairing", fi.Name, "regions", c.pos(fi), "acquisitions and releases pair up in the same mode on every path", why)
+		if !ok {
+			o.Breaks = "deadlock of all later operations, or a run-time fatal error (unlock of unlocked RWMutex)"
+		}
+	}
+}
+
+// ---- sub-index ------------------------------------------------------------------------
+
+func (x *c10) subIndexRule() {
+	c := x.c
+	fi := c.fn("sub-index", "chans.(*PubSub).subIndex")
+	if fi == nil {
+		return
+	}
+	ps := x.paths[fi]
+	recv, sub := paramOf(fi, 0), paramOf(fi, 1)
+	ok, why := true, ""
+	loops := findLoops(ps)
+	if len(loops) != 1 {
+		ok, why = false, "expected one loop over the subscriber list"
+	} else {
+		it := c14IterOf(loops[0])
+		if it == nil || it.kind != "slice" || !x.isSubsLoad(it.over, recv) || !it.full {
+			ok, why = false, "does not scan the whole subscriber list from the front"
+		} else {
+			hits, miss := 0, 0
+			for _, p := range ps {
+				if p.End != EndReturn || len(p.Rets) != 1 {
+					continue
+				}
+				eq := ""
+				for _, cd := range p.Conds {
+					r := cd.Rel()
+					if r.B != nil && (r.Op == "==" || r.Op == "!=") && ((it.isElem(r.A) && r.B.Key() == sub.Key()) || (it.isElem(r.B) && r.A.Key() == sub.Key())) {
+						eq = r.Op // the last comparison on the path decides
+					}
+				}
+				ret := p.Rets[0]
+				switch {
+				case ret.IsConst("-1"):
+					miss++
+					if eq == "==" {
+						ok, why = false, "returns -1 right after finding the channel"
+					}
+				case ToPoly(ret).Equal(ToPoly(it.idx)):
+					hits++
+					if eq != "==" {
+						ok, why = false, "returns an index whose element was not found equal to the argument"
+					}
+				default:
+					ok, why = false, "returns neither the current index nor -1: "+ret.String()
+				}
+			}
+			for _, p := range it.li.Back {
+				for _, cd := range p.Conds {
+					r := cd.Rel()
+					if r.B != nil && r.Op == "==" && ((it.isElem(r.A) && r.B.Key() == sub.Key()) || (it.isElem(r.B) && r.A.Key() == sub.Key())) {
+						ok, why = false, "the scan continues past a match"
+					}
+				}
+			}
+			if ok && (hits == 0 || miss == 0) {
+				ok, why = false, "missing the found or the not-found exit"
+			}
+		}
+	}
+	c.R.Decide(ok, "sub-index", fi.Name, "scan", c.pos(fi), "first i with subs[i] == sub, else -1", why)
 }
